@@ -112,6 +112,40 @@ Inductive kt := KW (ts : list loc) | KN (bits : Z) (k : nkey).
 Definition is_scalar (d : list kt) : bool := (length d <=? 1)%nat.
 Definition head_terms (d : list kt) : list loc := match d with KW ts :: _ => ts | _ => [] end.
 
+(* the effect of z3's simplify() on the terms of the grammar that matters to the decoders:
+   constant folding of Concat(const, const) under a hash (the application becomes
+   f_sha3_N(<constant>)) and of constant addends, flattening of nested additions.
+   decode applies simplify to both halves of a f_sha3_512 input and to key/base of a
+   narrow-key hash input, but not to the argument of f_sha3_256 nor to the location itself. *)
+Definition simp_add (ls : list loc) : loc :=
+  let flat := flat_map (fun t => match t with Add xs => xs | _ => [t] end) ls in
+  let c := (fold_right (fun t acc => match t with K z => z + acc | _ => acc end) 0 flat) mod W in
+  let nc := filter (fun t => match t with K _ => false | _ => true end) flat in
+  match nc with
+  | [] => K c
+  | [t] => if c =? 0 then t else Add [K c; t]
+  | _ => if c =? 0 then Add nc else Add (K c :: nc)
+  end.
+
+Fixpoint simp (l : loc) : loc :=
+  match l with
+  | K z => K z
+  | V x => V x
+  | ShaC b p => ShaC b p
+  | Sha256 a => Sha256 (simp a)
+  | Sha512 k a =>
+      match simp k, simp a with
+      | K x, K y => ShaC 512 (x * W + y)
+      | k', a' => Sha512 k' a'
+      end
+  | ShaN bits k a =>
+      match k, simp a with
+      | NKc z, K s => ShaC (bits + 256) ((z mod 2 ^ bits) * W + s)
+      | _, a' => ShaN bits k a'
+      end
+  | Add ls => simp_add (map simp ls)
+  end.
+
 Section Decode.
   Variable pre : omap.
   Variable R : registry.
@@ -121,11 +155,11 @@ Section Decode.
     | O => Err 3
     | S f =>
       match l with
-      | Sha512 k a => bind (decode_sol f a) (fun d => Ok (d ++ [KW [k]; KW [K 0]]))
+      | Sha512 k a => bind (decode_sol f (simp a)) (fun d => Ok (d ++ [KW [k]; KW [K 0]]))
       | Sha256 a => bind (decode_sol f a) (fun d => Ok (d ++ [KW [K 0]]))
       | ShaN bits k a =>
           if (bits =? 256) || (bits <=? 0) then Err 9
-          else bind (decode_sol f a) (fun d => Ok (d ++ [KN bits k; KW [K 0]]))
+          else bind (decode_sol f (simp a)) (fun d => Ok (d ++ [KN bits k; KW [K 0]]))
       | ShaC bits p =>
           if bits =? 512 then bind (decode_sol f (K (p mod W))) (fun d => Ok (d ++ [KW [K (p / W)]; KW [K 0]]))
           else if bits =? 256 then bind (decode_sol f (K p)) (fun d => Ok (d ++ [KW [K 0]]))
@@ -191,7 +225,7 @@ Section Decode.
         match g_lookup z with Some t => decode_gen f t | None => Ok (bits, z) end in
       match l with
       | Sha512 k a =>
-          bind (decode_gen f k) (fun hi => bind (decode_gen f a) (fun lo => Ok (g_simple_hash (g_concat hi lo))))
+          bind (decode_gen f (simp k)) (fun hi => bind (decode_gen f (simp a)) (fun lo => Ok (g_simple_hash (g_concat hi lo))))
       | Sha256 a => bind (decode_gen f a) (fun x => Ok (g_simple_hash x))
       | ShaN bits k a =>
           if (bits =? 256) || (bits <=? 0) then Err 9
